@@ -184,6 +184,16 @@ def main_c18(run):
     for t, (st, val) in real.items():
         if st.startswith("other"):
             run.violation("text:" + t, f"reading {t!r} raised {st[6:]}: {val}", {"text": t})
+    # string-like literals: every body <= 3 (4) characters over escape-relevant characters, for each prefix
+    lit_alpha = ["\"", "\\", "x", "a", "0", "N", "{", "}", "u", "\n"]
+    for pre in ("", "b", "r", "f", "br"):
+        lrows, lreal = enum_bind(run, 3 if q else 4, lit_alpha, list(pre) + ["\""], f"lit-{pre or 'plain'}")
+        for t, (st, val) in lreal.items():
+            run.case(t)
+            if st.startswith("other"):
+                run.violation("text:" + t, f"reading {t!r} raised {st[6:]}: {val}", {"text": t})
+            elif lrows[t]["st"] not in ("unk",) and {"ok": "ok", "lex": "lex", "eof": "eof"}.get(lrows[t]["st"]) == st:
+                run.cov["traces_validated_against_impl"] += 1
     texts = mutated_programs(rng, 400 if q else 20000)
     recs, acc, unk, says = file_validate(run, texts, "mut")
     n_other = 0
